@@ -44,6 +44,9 @@ type Out struct {
 	Docs      []any    // documents delivered (multi mode)
 	Events    []string // tokenizer events
 	ReadCalls int
+	GenCanon  string // canonical text of the gen result (gen.Parser only)
+	HasGen    bool
+	GenDocs   []string // canonical text of each gen document (multi mode)
 }
 
 // Failed reports error or panic.
